@@ -234,6 +234,11 @@ func (r *reader) Clone(sr *io.SectionReader) (metadata.Reader, error) {
 	if err != nil {
 		return nil, err
 	}
+	// The cloned reader serves the chunk digests of the newly parsed TOC.
+	// It must be the same TOC as the (possibly already verified) original one.
+	if er.TOCDigest() != r.r.TOCDigest() {
+		return nil, fmt.Errorf("TOC of the cloned reader %q differs from the original %q", er.TOCDigest(), r.r.TOCDigest())
+	}
 
 	return newReader(er, r.rootID, r.idMap, r.idOfEntry, r.estargzOpts), nil
 }
